@@ -217,6 +217,9 @@ pub struct Observation {
     pub completed_step: Option<u64>,
     pub alive_at_end: bool,
     pub ticks_done: u32,
+    /// Some clock advance happened while the runtime still had work pending (it "was not
+    /// scheduled for a while"): what was sent before that advance may be processed after it.
+    pub dirty_advance: bool,
 }
 
 pub type Checker = fn(&Observation) -> Vec<(String, String)>;
@@ -256,6 +259,7 @@ pub struct AsWorld {
     clock_start: Option<tokio::time::Instant>,
     times: Vec<u64>,
     completed_step: Option<u64>,
+    dirty_advance: bool,
 }
 
 struct Second {
@@ -391,10 +395,6 @@ impl AsWorld {
         let mut order: Vec<(usize, usize)> = vec![];
         for (i, r) in self.remotes.iter().enumerate() {
             if r.pos < r.queue.len() && r.tx.is_some() {
-                // the clock only moves while the runtime has nothing to do
-                if matches!(r.queue[r.pos], Step::Wait(_)) && self.subject.runnable() {
-                    continue;
-                }
                 // global index of this remote's next item
                 let mut count = 0;
                 let mut gidx = usize::MAX;
@@ -596,6 +596,7 @@ impl World for AsWorld {
             clock_start: None,
             times: vec![0],
             completed_step: None,
+            dirty_advance: false,
         }
     }
 
@@ -806,6 +807,9 @@ impl World for AsWorld {
             }
             EV_TICK => {
                 self.ticks_done += 1;
+                if self.subject.runnable() {
+                    self.dirty_advance = true;
+                }
                 if !self.quiescent_seen {
                     self.fault_before_quiescence = true;
                 }
@@ -909,7 +913,10 @@ impl World for AsWorld {
                     let n = *n;
                     r.sent.push((step, item.clone()));
                     self.script_pos += 1;
-                    self.log(format!("clock advances by {}/10 of the inactivity timeout", n));
+                    if self.subject.runnable() {
+                        self.dirty_advance = true;
+                    }
+                    self.log(format!("clock advances by {}/10 of the inactivity timeout{}", n, if self.subject.runnable() { " (the runtime has work pending)" } else { "" }));
                     tokio::time::advance(INACTIVE_TIMEOUT * n / 10 + Duration::from_millis(1)).await;
                 } else {
                 let path = RelativeAddress::new(NODE, item.lane());
@@ -1016,6 +1023,7 @@ impl World for AsWorld {
             completed_step: self.completed_step,
             alive_at_end: self.subject.alive(),
             ticks_done: self.ticks_done,
+            dirty_advance: self.dirty_advance,
         };
         let violations = (self.checker)(&obs);
         // digest of everything observable
